@@ -11,11 +11,34 @@ def gen_measure(g, R, D, diag=False):
                 nu=g.mat(R, D), lb=g.vec(R), diag=diag)
 
 
+def specialise_pdf(g, d):
+    """every fifth density gets SPECIAL values (random rationals almost never produce them): zero mean, identity or
+    diagonal covariance, identical components, one coordinate with zero mean"""
+    if g.randint(0, 4):
+        return d
+    R, D = d["R"], d["D"]
+    kind = g.choice(["zero_mu", "identity_S", "equal_comps", "diag_S", "zero_coord"])
+    one = lambda i, j: Fr(int(i == j))
+    if kind == "zero_mu":
+        d["mu"] = [[Fr(0)] * D for _ in range(R)]
+    elif kind == "identity_S":
+        d["Sig"] = [[[one(i, j) for j in range(D)] for i in range(D)] for _ in range(R)]
+    elif kind == "equal_comps":
+        d["Sig"] = [d["Sig"][0] for _ in range(R)]; d["mu"] = [d["mu"][0] for _ in range(R)]
+    elif kind == "diag_S":
+        d["Sig"] = [[[S[i][j] if i == j else Fr(0) for j in range(D)] for i in range(D)] for S in d["Sig"]]
+    else:
+        k = g.randint(0, D - 1)
+        d["mu"] = [[(Fr(0) if i == k else m[i]) for i in range(D)] for m in d["mu"]]
+    d["special"] = kind
+    return d
+
+
 def gen_pdf(g, R, D, diag=False, integer=False):
     if integer:
-        return dict(R=R, D=D, Sig=[g.spd(D, integer=True) for _ in range(R)],
-                    mu=[[Fr(g.randint(-2, 2)) for _ in range(D)] for _ in range(R)], diag=False)
-    return dict(R=R, D=D, Sig=[(g.diag_spd(D) if diag else g.spd(D)) for _ in range(R)], mu=g.mat(R, D), diag=diag)
+        return specialise_pdf(g, dict(R=R, D=D, Sig=[g.spd(D, integer=True) for _ in range(R)],
+                                      mu=[[Fr(g.randint(-2, 2)) for _ in range(D)] for _ in range(R)], diag=False))
+    return specialise_pdf(g, dict(R=R, D=D, Sig=[(g.diag_spd(D) if diag else g.spd(D)) for _ in range(R)], mu=g.mat(R, D), diag=diag))
 
 
 def gen_factor(g, kind, R, D):
